@@ -93,7 +93,7 @@ def config_cases(tier):
         'system': ['bin', 'tern'],
         'toggle': list(range(len(TOGGLES))),
         'solve': [{}, {'minDtFrac': 1e-3, 'maxDtFrac': 0.05}],
-        'temp': ['iso', 'iso_mid', 'iso_hot', 'heat'] if quick else ['iso', 'iso_mid', 'iso_hot', 'heat', 'cool', 'updown'],
+        'temp': ['iso', 'iso_mid', 'iso_hot', 'heat'] if quick else ['iso', 'iso_mid', 'iso_hot', 'heat', 'updown'],
         'it': ['euler', 'rk4'],
         'adaptive': [True] if quick else [True, False],
         'nphases': [1] if quick else [1, 2],
